@@ -650,3 +650,76 @@ Definition get_tag (f : elf) (dy : dynobj) (n : Z) : res dyntag :=
   do ts <- raw_tags f dy; do ps <- iter_segments f;
   do st <- get_stringtable f ps ts dy;
   dynamic_tag f st t.
+
+(* ---------- one Dynamic object under a history of calls ----------
+   State of the object as far as tags go: the _num_tags cache (None = -1) and the suspended
+   _iter_tags() generators (type filter, next index n, finished).  _stringtable / _num_symbols /
+   _symbol_name_map are caches of values proved to be functions of the image (not modelled here). *)
+Record walk := mkWalk { w_type : option string; w_next : Z; w_done : bool }.
+Record dstate := mkDst { ds_num : option Z; ds_walks : list walk }.
+(* Dynamic.__init__:  self._num_tags = -1 if not empty else 0 *)
+Definition dst_init (dy : dynobj) : dstate := mkDst (if dy_empty dy then Some 0 else None) [].
+
+(* _get_tag(n):  if self._num_tags != -1 and n >= self._num_tags: raise IndexError(n) *)
+Definition get_tag_st (f : elf) (dy : dynobj) (c : option Z) (n : Z) : res rawtag :=
+  match c with
+  | Some k => if k <=? n then Err (EPy "IndexError") else get_tag_raw f dy n
+  | None => get_tag_raw f dy n
+  end.
+
+Definition tmatch (ty : option string) (t : rawtag) : bool :=
+  match ty with None => true | Some s => is_name (fst t) s end.
+
+(* next(generator) of _iter_tags(type): run the loop body up to the next yield *)
+Fixpoint walk_next (fuel : nat) (f : elf) (dy : dynobj) (c : option Z) (w : walk) : res (option rawtag * walk) :=
+  if w_done w || dy_empty dy then Ok (None, mkWalk (w_type w) (w_next w) true)      (* StopIteration *)
+  else
+    match fuel with
+    | O => Err EFuel
+    | S k =>
+        do t <- get_tag_st f dy c (w_next w);
+        let stop := is_name (fst t) "DT_NULL" in
+        if tmatch (w_type w) t then Ok (Some t, mkWalk (w_type w) (w_next w + 1) stop)
+        else if stop then Ok (None, mkWalk (w_type w) (w_next w + 1) true)
+        else walk_next k f dy c (mkWalk (w_type w) (w_next w + 1) false)
+    end.
+
+(* num_tags():  if self._num_tags != -1: return it;  else walk to DT_NULL and remember n + 1 *)
+Definition num_tags_st (f : elf) (dy : dynobj) (c : option Z) : res (Z * option Z) :=
+  match c with
+  | Some k => Ok (k, c)
+  | None => do ts <- raw_tags f dy; Ok (zlen ts, Some (zlen ts))
+  end.
+
+Definition hstep (f : elf) (dy : dynobj) (st : dstate) (op : hop) : dstate * hans rawtag :=
+  match op with
+  | HStart ty => (mkDst (ds_num st) (ds_walks st ++ [mkWalk ty 0 false]), AStarted)
+  | HNext i =>
+      match nth_error (ds_walks st) i with
+      | None => (st, ANoWalk)
+      | Some w =>
+          match walk_next (S (length (f_img f))) f dy (ds_num st) w with
+          | Ok (Some t, w') => (mkDst (ds_num st) (set_nth (ds_walks st) i w'), ATag t)
+          | Ok (None, w') => (mkDst (ds_num st) (set_nth (ds_walks st) i w'), AStop)
+          | Err e => (mkDst (ds_num st) (set_nth (ds_walks st) i (mkWalk (w_type w) (w_next w) true)), AErr e)
+          end
+      end
+  | HNumTags =>
+      match num_tags_st f dy (ds_num st) with
+      | Ok (k, c') => (mkDst c' (ds_walks st), ANum k)
+      | Err e => (st, AErr e)
+      end
+  | HGetTag n =>       (* get_tag(n):  if n >= self.num_tags(): raise IndexError(n);  self._get_tag(n) *)
+      match num_tags_st f dy (ds_num st) with
+      | Ok (k, c') =>
+          let st' := mkDst c' (ds_walks st) in
+          if k <=? n then (st', AErr (EPy "IndexError"))
+          else match get_tag_st f dy c' n with Ok t => (st', ATag t) | Err e => (st', AErr e) end
+      | Err e => (st, AErr e)
+      end
+  end.
+Fixpoint hrun (f : elf) (dy : dynobj) (st : dstate) (ops : list hop) : list (hans rawtag) :=
+  match ops with
+  | [] => []
+  | op :: r => let (st', a) := hstep f dy st op in a :: hrun f dy st' r
+  end.
